@@ -19,6 +19,7 @@ type SExpr struct {
 	Name string // identifier / operator / selector name
 	Args []*SExpr
 	Vars []BoundVar
+	Pats [][]*SExpr // explicit instantiation patterns of a quantifier
 	Src  string
 }
 
@@ -226,8 +227,24 @@ func (p *specParser) expr() *SExpr {
 			break
 		}
 		p.expect("::")
+		// optional instantiation patterns: {t1, t2} {t3} body
+		var pats [][]*SExpr
+		for p.isOp("{") {
+			p.next()
+			var grp []*SExpr
+			for {
+				grp = append(grp, p.iff())
+				if p.isOp(",") {
+					p.next()
+					continue
+				}
+				break
+			}
+			p.expect("}")
+			pats = append(pats, grp)
+		}
 		body := p.expr()
-		return &SExpr{Op: q, Vars: vars, Args: []*SExpr{body}}
+		return &SExpr{Op: q, Vars: vars, Args: []*SExpr{body}, Pats: pats}
 	}
 	return p.iff()
 }
